@@ -466,9 +466,9 @@ def decryptBlocks (c : Cipher) : Nat → List Byte → Option (List Byte)
 
 /-- the package part of `standardDecrypt` -/
 def standardDecryptPkg (c : Cipher) (pkg : List Byte) : DOut :=
-  if pkg.length < decOffset then .panic
+  if pkg.length < decOffset then .err          -- len(encryptedPackageBuf) < 8: ErrWorkbookFileFormat
   else match decryptBlocks c pkg.length (pkg.drop decOffset) with
-    | none => .panic
+    | none => .err                            -- len(x) % aes.BlockSize != 0: ErrWorkbookFileFormat
     | some d =>
       if decTruncates then
         let size := unle64 (pkg.take decPrefix)
